@@ -218,7 +218,9 @@ def exhaustive_small(nmax, palette=(6, 7), labels=(None, 13)):
     """All labelled graphs on n <= nmax vertices x colourings from the palette x at most one isotope label."""
     for n in range(1, nmax + 1):
         pairs = list(itertools.combinations(range(n), 2))
-        for zs in itertools.product(palette, repeat=n):
+        # n >= 5: one element only (1024 graphs x 6 label positions); below: every colouring from the palette
+        pal = palette if n <= 4 else palette[:1]
+        for zs in itertools.product(pal, repeat=n):
             for k in range(2 ** len(pairs)):
                 edges = [pairs[i] for i in range(len(pairs)) if k >> i & 1]
                 for mi in [None] + list(range(n)):
